@@ -12,6 +12,85 @@ import (
 
 // ---- helpers of the C02 rule table (select arms, captured variables, goroutine hand-over) ----
 
+// c02Makers indexes, for the packages C02 looks at, the MakeClosure
+// instructions of the visible functions by the closure they create. A closure
+// of a helper that was inlined into its caller (variant programs) is created in
+// the caller, not in its syntactic parent; the index finds that site.
+var c02Makers map[*ssa.Function][]*ssa.MakeClosure
+
+func c02IndexClosures(p *core.Prog, rels ...string) {
+	c02Makers = map[*ssa.Function][]*ssa.MakeClosure{}
+	for _, rel := range rels {
+		for _, f := range p.PkgFuncs(rel) {
+			for _, b := range f.Blocks {
+				for _, in := range b.Instrs {
+					if m, ok := in.(*ssa.MakeClosure); ok {
+						if fn, ok := m.Fn.(*ssa.Function); ok {
+							c02Makers[fn] = append(c02Makers[fn], m)
+						}
+					}
+				}
+			}
+		}
+	}
+}
+
+// c02MakerOf returns the instruction creating closure fn: the one in a visible
+// function (preferring fn's syntactic parent), else the one in the parent.
+func c02MakerOf(fn *ssa.Function) *ssa.MakeClosure {
+	par := fn.Parent()
+	ms := c02Makers[fn]
+	for _, m := range ms {
+		if m.Parent() == par {
+			return m
+		}
+	}
+	if len(ms) > 0 {
+		return ms[0]
+	}
+	if par == nil {
+		return nil
+	}
+	for _, b := range par.Blocks {
+		for _, in := range b.Instrs {
+			if m, ok := in.(*ssa.MakeClosure); ok && m.Fn == fn {
+				return m
+			}
+		}
+	}
+	return nil
+}
+
+// c02ClosuresOf lists the closures created (transitively) by f.
+func c02ClosuresOf(f *ssa.Function) []*ssa.Function {
+	var out []*ssa.Function
+	seen := map[*ssa.Function]bool{f: true}
+	var walk func(g *ssa.Function)
+	walk = func(g *ssa.Function) {
+		for _, b := range g.Blocks {
+			for _, in := range b.Instrs {
+				if m, ok := in.(*ssa.MakeClosure); ok {
+					if fn, ok := m.Fn.(*ssa.Function); ok && !seen[fn] && fn.Blocks != nil {
+						seen[fn] = true
+						out = append(out, fn)
+						walk(fn)
+					}
+				}
+			}
+		}
+	}
+	walk(f)
+	return out
+}
+
+// c02WithClosures is f followed by the closures it creates.
+func c02WithClosures(f *ssa.Function) []*ssa.Function {
+	if f == nil {
+		return nil
+	}
+	return append([]*ssa.Function{f}, c02ClosuresOf(f)...)
+}
+
 // c02Home resolves an address (Alloc or FreeVar, through any number of closure
 // levels) to the variable's home: the Alloc of the outermost function that
 // declares it. Other values are returned unchanged.
@@ -22,24 +101,13 @@ func c02Home(addr ssa.Value) ssa.Value {
 			return addr
 		}
 		fn := fv.Parent()
-		par := fn.Parent()
-		if par == nil {
-			return addr
-		}
 		idx := -1
 		for j, x := range fn.FreeVars {
 			if x == fv {
 				idx = j
 			}
 		}
-		var mc *ssa.MakeClosure
-		for _, b := range par.Blocks {
-			for _, in := range b.Instrs {
-				if m, ok := in.(*ssa.MakeClosure); ok && m.Fn == fn {
-					mc = m
-				}
-			}
-		}
+		mc := c02MakerOf(fn)
 		if mc == nil || idx < 0 || idx >= len(mc.Bindings) {
 			return addr
 		}
@@ -49,10 +117,12 @@ func c02Home(addr ssa.Value) ssa.Value {
 }
 
 // c02Var resolves a value to the variable it was read from: a load of a local
-// or captured variable gives the variable's home Alloc; a spilled parameter
-// gives the Parameter; anything else is returned stripped of conversions.
+// or captured variable gives the variable's home Alloc; a variable assigned
+// exactly once from a parameter (spill slot, argument bound at defer time) or
+// from another variable is resolved further; anything else is returned stripped
+// of conversions.
 func c02Var(v ssa.Value) ssa.Value {
-	for i := 0; i < 8; i++ {
+	for i := 0; i < 12; i++ {
 		v = core.Strip(v)
 		u, ok := v.(*ssa.UnOp)
 		if !ok || u.Op != token.MUL {
@@ -68,7 +138,6 @@ func c02Var(v ssa.Value) ssa.Value {
 		if !ok {
 			return home
 		}
-		// a variable assigned exactly once from a parameter is that parameter
 		var st *ssa.Store
 		n := 0
 		for _, r := range *al.Referrers() {
@@ -77,8 +146,16 @@ func c02Var(v ssa.Value) ssa.Value {
 			}
 		}
 		if n == 1 {
-			if pa, ok := st.Val.(*ssa.Parameter); ok {
+			sv := core.Strip(st.Val)
+			if pa, ok := sv.(*ssa.Parameter); ok {
 				return pa
+			}
+			if l, ok := sv.(*ssa.UnOp); ok && l.Op == token.MUL {
+				switch l.X.(type) {
+				case *ssa.Alloc, *ssa.FreeVar:
+					v = l // copy of another variable: keep resolving
+					continue
+				}
 			}
 		}
 		return al
@@ -209,7 +286,7 @@ func c02NewRunner(fn *ssa.Function, isHandler func(ssa.Instruction) bool) *c02Ru
 		r.problem = "the goroutine is not a function literal (shape not understood)"
 		return r
 	}
-	r.bodys = core.WithAnon(r.body)
+	r.bodys = c02WithClosures(r.body)
 	r.arms = c02SelectArms(fn)
 	for _, f := range r.bodys {
 		r.handlerCalls = append(r.handlerCalls, core.Instrs(f, isHandler)...)
